@@ -598,12 +598,22 @@ func (fv *FV) ratModel(st *State, call *ast.CallExpr, name string, sel *ast.Sele
 		wb(r)
 		pso := fv.ss.Of(fv.info.TypeOf(call))
 		return []Term{ptrMk(pso, r)}
+	case "IsInt":
+		r, _ := fv.ratRecv(st, sel.X)
+		st.assume(T(sx(">", sx("rden", r.S), "0"), SBool))
+		// math/big keeps rationals in lowest terms: an integral value has denominator 1
+		st.assume(T(sx("=>", sx("=", sx("mod", sx("rnum", r.S), sx("rden", r.S)), "0"), sx("=", sx("rden", r.S), "1")), SBool))
+		return []Term{T(sx("=", sx("mod", sx("rnum", r.S), sx("rden", r.S)), "0"), SBool)}
 	case "SetString":
+		// the rational a text denotes is an uninterpreted function of the text (ratparses / ratnum / ratden in specs)
 		_, wb := fv.ratRecv(st, sel.X)
-		fv.evalExpr(st, call.Args[0])
+		str := fv.evalExpr(st, call.Args[0])
+		ratStrDecls(fv.ss)
 		ok := fv.fresh("ok", SBool)
 		r := fv.fresh("rat", SRat)
 		st.assume(T(sx(">", sx("rden", r.S), "0"), SBool))
+		st.assume(T(sx("=", ok.S, sx("ratparses", str.S)), SBool))
+		st.assume(T(sx("=>", ok.S, sx("and", sx("=", sx("rnum", r.S), sx("ratnum", str.S)), sx("=", sx("rden", r.S), sx("ratden", str.S)))), SBool))
 		wb(r)
 		rs, _ := fv.resultSorts(call)
 		return []Term{tIte(ok, ptrMk(rs[0], r), ptrNil(rs[0])), ok}
@@ -616,4 +626,9 @@ func (fv *FV) ratModel(st *State, call *ast.CallExpr, name string, sel *ast.Sele
 	}
 	fv.abort(call.Pos(), "math/big.Rat.%s has no model", name)
 	return nil
+}
+
+
+func ratStrDecls(ss *Sorts) {
+	ss.ensureDecl("ratparses", "(declare-fun ratparses (Str) Bool)\n(declare-fun ratnum (Str) Int)\n(declare-fun ratden (Str) Int)\n(assert (forall ((s Str)) (! (> (ratden s) 0) :pattern ((ratden s)))))")
 }
